@@ -252,14 +252,23 @@ def run(ctx):
     chk.floor("R12.a", n, 12, "concrete observer classes")
 
     # ---------------------------------------------------------------- R12.f
-    stale_aliases(ctx, lc, cone, disp)
-    rebuild_before_features(ctx, lc, cone)
+    ctx.attempt(stale_aliases, ctx, lc, cone, disp)
+    from .common import mangled_overrides
+
+    for c_, m_, b_ in mangled_overrides(ctx, ("job_shop_lib",)):
+        chk.violation(
+            "R12.a", m_, None,
+            f"{c_.name}.{m_.name} is meant to override {b_.name}.{m_.name}, but names with two leading underscores are mangled per "
+            f"class: code in {b_.name} that calls self.{m_.name}() runs {b_.name}'s own version, so this hook (and whatever state it "
+            "re-establishes on reset) is never executed",
+        )
+    ctx.attempt(rebuild_before_features, ctx, lc, cone)
 
     # ---------------------------------------------------------------- R12.b
-    reset_order(ctx, lc, cone, obs, disp, "reset", "R12.b")
+    ctx.attempt(reset_order, ctx, lc, cone, obs, disp, "reset", "R12.b")
 
     # ---------------------------------------------------------------- R12.c
-    dispatcher_reset(ctx, lc, disp, "R12.c")
+    ctx.attempt(dispatcher_reset, ctx, lc, disp, "R12.c")
 
     # ---------------------------------------------------------------- R12.d
     gu = repo.find_class("GraphUpdater")
@@ -321,7 +330,7 @@ def run(ctx):
                         )
 
     # ---------------------------------------------------------------- R12.e
-    environments(ctx, lc, disp)
+    ctx.attempt(environments, ctx, lc, disp)
 
 
 # --------------------------------------------------------------------------
